@@ -6,5 +6,7 @@ func init() {
 	for _, p := range []string{"C03", "C04", "C05", "C09", "C10"} {
 		plans[p] = propPlan{Scenarios: []string{"tunnel"}, QuickRuns: 4000, ThoroughDur: 10 * time.Minute}
 	}
-	plans["C17"] = propPlan{Scenarios: []string{"tunnel"}, QuickRuns: 3000, ThoroughDur: 10 * time.Minute}
+	plans["C17"] = propPlan{Scenarios: []string{"tunnel", "router"}, QuickRuns: 4000, ThoroughDur: 10 * time.Minute}
+	plans["C13"] = propPlan{Scenarios: []string{"router"}, QuickRuns: 4000, ThoroughDur: 10 * time.Minute}
+	plans["C14"] = propPlan{Scenarios: []string{"router"}, QuickRuns: 4000, ThoroughDur: 10 * time.Minute}
 }
